@@ -4,8 +4,9 @@
 From Coq Require Import List NArith String Bool Permutation.
 From V Require Import Base.Strings Base.Result Model.Registry Model.Settings Model.Subst
   Model.TypePath Model.Derives Model.Generate Model.Emit Model.Equal Model.Switches Model.Renumber
-  Model.Inputs Model.ExamplesTG
-  Proofs.GenProofs Proofs.ItemsCanonical Proofs.RenumberPerm Proofs.Equivariance Proofs.RenumberList.
+  Model.Inputs Model.ExamplesTG Model.Shape Model.Families Model.ExamplesFam
+  Proofs.GenProofs Proofs.ItemsCanonical Proofs.RenumberPerm Proofs.Equivariance Proofs.RenumberList
+  Proofs.PermFamilies.
 Import ListNotations.
 Open Scope string_scope. Open Scope list_scope. Open Scope N_scope.
 
@@ -73,3 +74,139 @@ Example ex_items_insert_canonical :
   let c := (["b"; "X"], (3, ir)) in
   insert_all [a; b; c] [] = insert_all [c; a; b] [] /\ insert_all [a; b; c] [] = [b; a; c].
 Proof. vm_compute. split; reflexivity. Qed.
+
+(** ** the full theorem (same-path families, recursive derives) *)
+Example ex_pi_swap_renumbering : renumbering (N.of_nat (List.length ex_reg)) ex_pi_swap.
+Proof. exact (renumbering_of_list ex_pi_swap_list eq_refl). Qed.
+
+(** the hypotheses of [permutation_tokens] hold for [ex_reg] (two instantiations of
+    [a::b::Wrap]) with the recursive-derive settings [ex_set_rec] *)
+Example ex_family_hypotheses :
+  skeleton_consistentb ex_reg ex_set_rec = true /\ docs_consistentb ex_reg ex_set_rec = true /\
+  derives_functionalb ex_set_rec = true /\
+  is_ok (generate ex_reg ex_set_rec (types_equal ex_reg)) = true /\
+  is_ok (generate (renumber ex_pi_swap ex_reg) ex_set_rec (types_equal (renumber ex_pi_swap ex_reg))) = true.
+Proof. vm_compute. repeat split; reflexivity. Qed.
+
+(** ... the swap really changes which member is first, and the recursive derives arrive *)
+Example ex_family_swapped :
+  first_eligible ex_reg ex_set_rec ["a"; "b"; "Wrap"] = Some (nth 2 ex_reg dummy_entry) /\
+  option_map fst (first_eligible (renumber ex_pi_swap ex_reg) ex_set_rec ["a"; "b"; "Wrap"]) = Some 5 /\
+  ex_pi_swap 3 = 5 /\
+  match gen_emit ex_reg ex_set_rec (types_equal ex_reg) with
+  | Ok t => has "PartialEq" t && has "Hash" t && has "Eq" t && has "serde" t
+  | _ => false
+  end = true.
+Proof. vm_compute. repeat split; reflexivity. Qed.
+
+Example ex_permutation_tokens_family m1 m2 :
+  generate ex_reg ex_set_rec (types_equal ex_reg) = Ok m1 ->
+  generate (renumber ex_pi_swap ex_reg) ex_set_rec (types_equal (renumber ex_pi_swap ex_reg)) = Ok m2 ->
+  emit_module ex_set_rec m1 = emit_module ex_set_rec m2.
+Proof.
+  destruct ex_family_hypotheses as (H1 & H2 & H3 & _).
+  exact (permutation_tokens_b ex_pi_swap ex_reg ex_set_rec _ _ m1 m2 ex_pi_swap_renumbering H1 H2 H3).
+Qed.
+
+(** [docs_consistent] cannot be dropped: a family whose members differ in their docs only is
+    skeleton-consistent ([erase_ids] forgets docs), both runs are [Ok], and the outputs differ *)
+Example ex_docs_needed :
+  skeleton_consistentb ex_reg_docs ex_set = true /\ docs_consistentb ex_reg_docs ex_set = false /\
+  is_ok (gen_emit ex_reg_docs ex_set (types_equal ex_reg_docs)) = true /\
+  is_ok (gen_emit (renumber ex_pi_swap ex_reg_docs) ex_set (types_equal (renumber ex_pi_swap ex_reg_docs))) = true /\
+  gen_emit (renumber ex_pi_swap ex_reg_docs) ex_set (types_equal (renumber ex_pi_swap ex_reg_docs)) <>
+  gen_emit ex_reg_docs ex_set (types_equal ex_reg_docs).
+Proof. vm_compute. repeat split; try reflexivity. intros H; discriminate H. Qed.
+
+Lemma family_hypotheses_satisfiable :
+  exists pi r s,
+    renumbering (N.of_nat (List.length r)) pi /\
+    skeleton_consistentb r s = true /\ docs_consistentb r s = true /\ derives_functionalb s = true /\
+    dr_recursive (s_dreg s) <> [] /\ ~ unique_item_paths r s /\
+    is_ok (generate r s (types_equal r)) = true /\
+    is_ok (generate (renumber pi r) s (types_equal (renumber pi r))) = true.
+Proof.
+  exists ex_pi_swap, ex_reg, ex_set_rec.
+  destruct ex_family_hypotheses as (H1 & H2 & H3 & H4 & H5).
+  split; [exact ex_pi_swap_renumbering|]. repeat (split; [assumption|]).
+  split; [discriminate|]. split; [|split; assumption].
+  intros Hu.
+  assert (E : nth 2 ex_reg dummy_entry = nth 3 ex_reg dummy_entry).
+  { apply Hu; [cbn; tauto|cbn; tauto|reflexivity|reflexivity|reflexivity]. }
+  discriminate E.
+Qed.
+
+Lemma docs_hypothesis_needed :
+  exists pi r s,
+    renumbering (N.of_nat (List.length r)) pi /\ skeleton_consistent r s /\ derives_functional s /\
+    exists m1 m2, generate r s (types_equal r) = Ok m1 /\
+                  generate (renumber pi r) s (types_equal (renumber pi r)) = Ok m2 /\
+                  emit_module s m1 <> emit_module s m2.
+Proof.
+  exists ex_pi_swap, ex_reg_docs, ex_set.
+  split; [exact (renumbering_of_list ex_pi_swap_list eq_refl)|].
+  split; [apply ShapeBool.skeleton_consistentb_sound; vm_compute; reflexivity|].
+  split; [apply derives_functionalb_sound; vm_compute; reflexivity|].
+  destruct (generate ex_reg_docs ex_set (types_equal ex_reg_docs)) as [m1|e|m] eqn:G1;
+    [|vm_compute in G1; discriminate G1|vm_compute in G1; discriminate G1].
+  destruct (generate (renumber ex_pi_swap ex_reg_docs) ex_set (types_equal (renumber ex_pi_swap ex_reg_docs)))
+    as [m2|e|m] eqn:G2; [|vm_compute in G2; discriminate G2|vm_compute in G2; discriminate G2].
+  exists m1, m2. split; [reflexivity|]. split; [reflexivity|].
+  vm_compute in G1. vm_compute in G2. inversion G1; subst m1. inversion G2; subst m2.
+  vm_compute. intros H; discriminate H.
+Qed.
+
+(** ** restriction (Proofs/Restriction.v) *)
+From V Require Import Proofs.Restriction.
+
+Example ex_pi_keep_renumbering : renumbering (N.of_nat (List.length ex_reg)) ex_pi_keep.
+Proof. exact (renumbering_of_list ex_pi_keep_list eq_refl). Qed.
+
+(** the sub-registry retained from [a::c::E]: 5 entries, closed, ids = positions; the two runs
+    are [Ok]; the retained module has the items [a::b::Wrap] and [a::c::E] (not [a::Top]) *)
+Example ex_restriction_hypotheses :
+  List.length (restrict ex_pi_keep ex_keep_k ex_reg) = 5%nat /\
+  closed_reg (restrict ex_pi_keep ex_keep_k ex_reg) = true /\
+  ids_consistent (restrict ex_pi_keep ex_keep_k ex_reg) = true /\
+  skeleton_consistentb ex_reg ex_set_rec2 = true /\ docs_consistentb ex_reg ex_set_rec2 = true /\
+  derives_functionalb ex_set_rec2 = true /\
+  no_outside_rootsb (dr_recursive (s_dreg ex_set_rec2)) (dropped ex_pi_keep ex_keep_k ex_reg) = true /\
+  rmap (map fst) (generate ex_reg ex_set_rec2 (types_equal ex_reg)) =
+    Ok [["a"; "Top"]; ["a"; "b"; "Wrap"]; ["a"; "c"; "E"]] /\
+  rmap (map fst) (generate (restrict ex_pi_keep ex_keep_k ex_reg) ex_set_rec2
+                           (types_equal (restrict ex_pi_keep ex_keep_k ex_reg))) =
+    Ok [["a"; "b"; "Wrap"]; ["a"; "c"; "E"]].
+Proof. vm_compute. repeat split; reflexivity. Qed.
+
+Example ex_restriction_tokens m m' :
+  generate ex_reg ex_set_rec2 (types_equal ex_reg) = Ok m ->
+  generate (restrict ex_pi_keep ex_keep_k ex_reg) ex_set_rec2
+           (types_equal (restrict ex_pi_keep ex_keep_k ex_reg)) = Ok m' ->
+  forall p id' ir', items_get m' p = Some (id', ir') ->
+    exists id ir, items_get m p = Some (id, ir) /\
+                  type_ir_tokens ex_set_rec2 ir' = type_ir_tokens ex_set_rec2 ir.
+Proof.
+  destruct ex_restriction_hypotheses as (_ & _ & _ & H1 & H2 & H3 & H4 & _).
+  exact (restriction_tokens_b ex_pi_keep ex_keep_k ex_reg ex_set_rec2 _ _ m m'
+                              ex_pi_keep_renumbering H1 H2 H3 H4).
+Qed.
+
+Lemma restriction_hypotheses_satisfiable :
+  exists pi k r s,
+    renumbering (N.of_nat (List.length r)) pi /\
+    skeleton_consistentb r s = true /\ docs_consistentb r s = true /\ derives_functionalb s = true /\
+    no_outside_rootsb (dr_recursive (s_dreg s)) (dropped pi k r) = true /\
+    dr_recursive (s_dreg s) <> [] /\ (List.length (restrict pi k r) < List.length r)%nat /\
+    is_ok (generate r s (types_equal r)) = true /\
+    is_ok (generate (restrict pi k r) s (types_equal (restrict pi k r))) = true.
+Proof.
+  exists ex_pi_keep, ex_keep_k, ex_reg, ex_set_rec2.
+  destruct ex_restriction_hypotheses as (Hl & _ & _ & H1 & H2 & H3 & H4 & G & G').
+  split; [exact ex_pi_keep_renumbering|]. repeat (split; [assumption|]).
+  split; [discriminate|]. split; [rewrite Hl; cbn; repeat constructor|].
+  split.
+  - destruct (generate ex_reg ex_set_rec2 (types_equal ex_reg)); [reflexivity|discriminate G|discriminate G].
+  - destruct (generate (restrict ex_pi_keep ex_keep_k ex_reg) ex_set_rec2
+                       (types_equal (restrict ex_pi_keep ex_keep_k ex_reg)));
+      [reflexivity|discriminate G'|discriminate G'].
+Qed.
